@@ -180,6 +180,8 @@ pub const PATHS: &[&str] = &[
 pub const PATHS_NONASCII: &[&str] = &[
     "/ads\u{2014}foo", "/bar\u{2014}x", "/x\u{b7}bar", "/\u{2014}foo\u{2014}", "/ads/foo/bar\u{b7}", "/\u{e9}/bar", "/bar\u{e9}", "/foo/bar\u{a0}", "/ads\u{ff0f}foo/bar", "/\u{6587}ads/foo", "/\u{6587}ads\u{2014}x", "/x\u{b7}\u{e9}/bar",
     "/foo%2Fbar/\u{e9}", "/ads%20foo\u{2014}bar",
+    // an ASCII rule token directly in front of the first non-ASCII letter of the URL
+    "/ads\u{6587}/foo", "/foo/ads\u{e9}",
 ];
 
 pub const QUERIES: &[&str] = &["", "?x=1", "?utm=1&b=2"];
